@@ -171,6 +171,21 @@ let monitors : (string * (config -> n list -> n list option -> bool)) list = [
   ("C16udp_strict", ok_C16_udp_strict);
   ("C13udp", ok_C13_udp);
   ("C18udp", ok_C18_udp);
+  ("C15udp", ok_C15_udp);
+  ("C15udp_strict", ok_C15_udp_strict);
+]
+
+(* monitors that read the implementation's compiled signature table (env) *)
+let monitors_env : (string * (env -> config -> n list -> n list option -> bool)) list = [
+  ("C14udp", ok_C14_udp);
+]
+
+(* frame classes: known-finding classes and coverage counters *)
+let classes_env : (string * (env -> config -> n list -> bool)) list = [
+  ("c16", (fun _ c f -> c16_class_frame c f));
+  ("c15", (fun _ c f -> c15_class_frame c f));
+  ("c14pos", c14_positive_frame);
+  ("c14neg", c14_negative_frame);
 ]
 
 (* monitors that also need the reference connection state (first data segment of a TCP flow) *)
@@ -180,6 +195,8 @@ let monitors_st : (string * (config -> ref_state -> n list -> n list option -> b
   ("C16tcp_strict", ok_C16_tcp_strict);
   ("C13tcp", ok_C13_tcp);
   ("C18tcp", ok_C18_tcp);
+  ("C15tcp", ok_C15_tcp);
+  ("C15tcp_strict", ok_C15_tcp_strict);
 ]
 
 let () =
@@ -217,6 +234,9 @@ let () =
              List.iter (fun (name, m) ->
                if List.mem name wanted then
                  Printf.printf "V %s %d\n" name (if m !cfg !rst frame ir then 1 else 0)) monitors_st;
+             List.iter (fun (name, m) ->
+               if List.mem name wanted then
+                 Printf.printf "V %s %d\n" name (if m env !cfg frame ir then 1 else 0)) monitors_env;
              (match !ievs with
               | Some evs when List.mem "C20" wanted ->
                 Printf.printf "V C20 %d\n" (if ok_C20 !cfg frame ir evs then 1 else 0)
@@ -253,6 +273,10 @@ let () =
           let e = decode_event ev in
           let t = bytes_of_hex ts in
           Printf.printf "L %s\n" (hex_of_bytes (if fmt = "console" then render_console t e else render_logfmt t e))
+        | "CLS" :: name :: f :: _ ->
+          (* is the frame in the named class (known-finding class / coverage class)? *)
+          let m = List.assoc name classes_env in
+          Printf.printf "K %d\n" (if m env !cfg (bytes_of_hex f) then 1 else 0)
         | "CLS16" :: f :: _ ->
           (* C16: is the frame an in-scope RPC call of the known shadowing class? *)
           Printf.printf "K %d\n" (if c16_class_frame !cfg (bytes_of_hex f) then 1 else 0)
